@@ -50,7 +50,7 @@ CHECKS = {
              "symbolic initial concentrations: z3 (LRA) proves bound = min(total/atoms) and that no non-negative state with the same "
              "element totals exceeds it, also for other container kinds of the state (reversed OrderedDict, list, tuple, defaultdict with a symbolic non-zero default that lists one species only)",
         note="split: <= 3 canonical disjoint + <= 3 symbolic reactions over <= 7 keys (each path is one concrete graph: bounded exhaustive); "
-             "coefficients 0..2; generated formula systems for the bounds; decompose_yields (numpy lstsq) and float coercion of "
+             "coefficients 0..1000; generated formula systems for the bounds; decompose_yields (numpy lstsq) and float coercion of "
              "as_per_substance_array are outside",
         technique=Z, ref="DESIGN.md section 5 C15"),
     "C17": dict(
